@@ -374,10 +374,6 @@ func c12CheckCER(raw []byte) string {
 		return "Origin-Realm test missing"
 	case !has(257, refcodec.Address(1, []byte{10, 0, 0, 2})) || !has(257, refcodec.Address(1, []byte{10, 0, 0, 3})):
 		return "configured Host-IP-Address 10.0.0.2 / 10.0.0.3 missing"
-	case !has(266, refcodec.U32(13)):
-		return "Vendor-Id 13 missing"
-	case !has(269, []byte("prod")):
-		return "Product-Name missing"
 	case !has(258, refcodec.U32(4)):
 		return "Auth-Application-Id 4 missing"
 	case !has(259, refcodec.U32(3)):
